@@ -338,7 +338,7 @@ pub fn gen_registry(r: &mut Rng, with_queries: bool) -> Case {
         clients.push(prog);
     }
     let _ = p;
-    Case { clients, sched_seed: r.next(), crashes: vec![], spurious_pm: 0, max_polls: 4000, horizon_ms: 3000, svc }
+    Case { clients, sched_seed: r.next(), crashes: vec![], spurious_pm: 0, max_polls: 4000, horizon_ms: 3000, svc, allow_respent: false }
 }
 
 /// children family: trees up to depth 3 / 6 nodes, children under different message types, some
@@ -419,7 +419,7 @@ pub fn gen_children(r: &mut Rng) -> Case {
     if r.chance(200) {
         crashes.push(Crash { actor: 0, after_polls: 1 + r.below(8) as usize });
     }
-    Case { clients: vec![c0], sched_seed: r.next(), crashes, spurious_pm: 0, max_polls: 4000, horizon_ms: 3000, svc: vec![] }
+    Case { clients: vec![c0], sched_seed: r.next(), crashes, spurious_pm: 0, max_polls: 4000, horizon_ms: 3000, svc: vec![], allow_respent: false }
 }
 
 /// broker family: 1-3 publishing tasks, 1-4 subscribers, 1-2 topics; subscribe in started or
@@ -484,7 +484,7 @@ pub fn gen_broker(r: &mut Rng) -> Case {
         fin.push(Cop::Drop { h: x });
     }
     clients.push(fin);
-    Case { clients, sched_seed: r.next(), crashes: vec![], spurious_pm: 0, max_polls: 4000, horizon_ms: 3000, svc: vec![] }
+    Case { clients, sched_seed: r.next(), crashes: vec![], spurious_pm: 0, max_polls: 4000, horizon_ms: 3000, svc: vec![], allow_respent: false }
 }
 
 pub fn gen_case(family: &str, r: &mut Rng) -> Case {
@@ -604,5 +604,6 @@ pub fn gen_case(family: &str, r: &mut Rng) -> Case {
         max_polls: 4000,
         horizon_ms: 3000,
         svc: vec![],
+        allow_respent: false,
     }
 }
